@@ -15,7 +15,8 @@ RULE = ("seeded single-argument worlds over the configuration lattice: home on /
         "empty / on another volume, HOME unset, uid in {0,1000,65534}, --trash-dir, --home-fallback with/without the "
         "environment switch, files reached through symlinks crossing volumes, symbolic links that do not resolve on the way "
         "to a trash directory; plus multi-argument worlds (arguments on different volumes in one run) where each "
-        "argument is judged on its own against C07.expected")
+        "argument is judged on its own against C07.expected; plus 2-3 real trash-put processes using a trash directory for the "
+        "first time at the same moment (interleaved call by call): each succeeds, into the prescribed directory")
 
 
 def run(tier, seed):
@@ -26,8 +27,16 @@ def run(tier, seed):
     absorb(ck, "C07", run_tasks(eval_task, [{"pid": "C07m", "seed": seed, "i": i, "cfg": CFG_MULTI} for i in range(nm)]),
            CFG_MULTI, "Model.Put")
     search_failing_input(ck, "C07", seed, CFG, n, "Model.Put")
+    # "created on demand": several trash-put processes using a trash directory for the first time at the same moment -
+    # whoever loses the race to create it still finds it usable
+    from . import parworlds
+    parworlds.add_concurrent(ck, tier, seed + 707, oracles=("C07",), n_quick=80, n_thorough=2000)
     return ck.finish(info, LEVEL_NOTE, RULE)
 
 
 def replay(path):
+    from . import parworlds
+    rc = parworlds.replay_concurrent("C07", path, oracles=("C07",))
+    if rc is not None:
+        return rc
     return replay_family("C07", path, CFG)
